@@ -12,6 +12,16 @@ from hypothesis import strategies as st
 
 from .plain import INF, plane_binary_shapes, shape_newick
 
+def chance(draw, num, den):
+    """True with probability ~num/den (den <= 12).  Drawn through a small
+    sampled_from because Hypothesis over-represents small values of wider
+    integer ranges (measured: integers(0, 99) < 30 in 77% of cases).  Inside
+    long composite draws Hypothesis still picks the first (simplest) element
+    about twice as often as its share (measured), so callers pass nominal
+    odds tuned against the class histogram reported in the evidence."""
+    return draw(st.sampled_from([True] * num + [False] * (den - num)))
+
+
 SPECIES_NAMES = ["SA", "SB", "SC", "SD", "SE", "SF", "SG", "SH", "SI", "SJ"]
 DEFAULT = {"SPECIATION": 0, "DUPLICATION": 1, "HORIZONTAL_TRANSFER": 1, "FULL_LOSS": 1, "SEGMENTAL_LOSS": 1}
 
@@ -98,7 +108,7 @@ HGT = st.sampled_from([0, 1, 2, 3, INF])
 def coherent_costs(draw, labelled=True, maxv=3):
     """Cost vector inside spe + 2*sloss <= dup + 2*floss (labelled) or
     spe <= dup + 2*floss (plain), by construction."""
-    if draw(st.integers(0, 5)) == 0:
+    if chance(draw, 1, 10):
         return dict(DEFAULT)
     dup = draw(st.integers(0, maxv))
     floss = draw(st.integers(0, maxv))
@@ -114,7 +124,7 @@ def coherent_costs(draw, labelled=True, maxv=3):
 
 @st.composite
 def free_costs(draw, maxv=3):
-    if draw(st.integers(0, 7)) == 0:
+    if chance(draw, 1, 12):
         return dict(DEFAULT)
     vals = [draw(st.integers(0, maxv)) for _ in range(4)]
     return {
@@ -139,14 +149,14 @@ def in_region(c, labelled=True):
 def leaf_syntenies(draw, leaves, max_fam=4, single_prob=0, allow_inconsistent=True):
     """leaf -> non-empty list of distinct families.  Returns (mapping,
     hidden order or None, consistent flag)."""
-    if single_prob and draw(st.integers(0, 99)) < single_prob:
+    if single_prob and chance(draw, round(single_prob / 10), 10):
         return {l: ["g0"] for l in leaves}, ["g0"], True
     nf = biased_size(draw, 1, max_fam)
     fams = [f"g{i}" for i in range(nf)]
     order = draw(st.permutations(fams))
     consistent = True
     if allow_inconsistent and nf >= 2:
-        consistent = draw(st.integers(0, 3)) != 0
+        consistent = chance(draw, 3, 4)
     out = {}
     for l in leaves:
         mask = draw(st.integers(1, 2**nf - 1))
@@ -181,7 +191,7 @@ def rec_case(draw, max_obj=5, max_sp=4, min_obj=1, min_sp=1, costs="coherent", l
             leaf_syntenies(list(los), max_fam=max_fam, single_prob=single_prob,
                            allow_inconsistent=allow_inconsistent)
         )
-        if prescribed_root and consistent and len(los) > 1 and draw(st.integers(0, 4)) == 0:
+        if prescribed_root and consistent and len(los) > 1 and chance(draw, 1, 5):
             present = {f for s in syn.values() for f in s}
             syn = dict(syn)
             syn["O0"] = [f for f in order if f in present]
